@@ -934,6 +934,34 @@ func stdPure(callee *ssa.Function, args []aval) (aval, bool) {
 				return aBool(strings.EqualFold(a, b)), true
 			}
 		}
+	case "strings.ContainsRune", "strings.IndexRune", "strings.IndexByte":
+		if a, ok := str(0); ok {
+			if b, ok := num(1); ok {
+				switch callee.Name() {
+				case "ContainsRune":
+					return aBool(strings.ContainsRune(a, rune(b))), true
+				case "IndexRune":
+					return aInt(strings.IndexRune(a, rune(b))), true
+				case "IndexByte":
+					return aInt(strings.IndexByte(a, byte(b))), true
+				}
+			}
+		}
+	case "strings.ContainsAny", "strings.IndexAny", "strings.Count", "strings.LastIndex":
+		if a, ok := str(0); ok {
+			if b, ok := str(1); ok {
+				switch callee.Name() {
+				case "ContainsAny":
+					return aBool(strings.ContainsAny(a, b)), true
+				case "IndexAny":
+					return aInt(strings.IndexAny(a, b)), true
+				case "Count":
+					return aInt(strings.Count(a, b)), true
+				case "LastIndex":
+					return aInt(strings.LastIndex(a, b)), true
+				}
+			}
+		}
 	case "strings.Contains":
 		if a, ok := str(0); ok {
 			if b, ok := str(1); ok {
